@@ -97,7 +97,7 @@ RemoveValidator_G(s, e) ==
     known     |-> Has(s.vals, e.op) ]
 RemoveValidator_E(s, e) == [s EXCEPT !.vals = [@ EXCEPT ![e.op].power = 0]]
 
-ParamsValid(p) == ValidAddr(p.admin) /\ (\A i \in 1..Len(p.execs) : ValidAddr(p.execs[i])) /\ p.maxVals > 0
+ParamsValid(p) == ValidAddr(p.admin) /\ (\A i \in 1..Len(p.execs) : ValidAddr(p.execs[i])) /\ p.maxVals > 0 /\ (\A i \in 1..Len(p.fw) : ValidAddr(p.fw[i]))
 UpdateParams_G(s, e) ==
   [ valid     |-> ValidAddr(e.signer) /\ ParamsValid(e.params),
     authority |-> e.signer = Authority,
